@@ -658,7 +658,15 @@ def resolve_shm_batch(
     resolved_cm = strip_keys(custom_metadata, SHM_OFFSET_KEY, SHM_LENGTH_KEY)
     resolved_cm = merge_metadata(resolved_cm, {SHM_SOURCE_KEY: shm.name.encode()})
 
+    released = False
+
     def release_fn() -> None:
+        # Idempotent: once freed, the offset may already back another batch —
+        # a second free would hand that batch's region out while still in use.
+        nonlocal released
+        if released:
+            return
+        released = True
         shm.free(offset)
 
     return resolved_batch, resolved_cm, release_fn
